@@ -550,7 +550,8 @@ example : (selectFmt rulesEn true false k12h).toOption = some "noon".toList ∧
 example : ∀ lang dt, dateGood DOpts.default false = true ∧ timeGood lang dt DOpts.default = true := by
   intro lang dt; cases lang <;> simp [dateGood, timeGood, DOpts.default, dateSubsetMissing]
 
-/-! ## the Python source is the one the model mirrors (constants lifted by `ast` on every run) -/
+/-! ## the Python source is the one the model mirrors (constants lifted by `ast` on every run, after the translator's
+    normalisation: iterated / membership-tested list displays = tuple displays, local zero-argument helpers inlined) -/
 
 def source_as_modelled : Prop :=
   pyFmtRE = "(.*?)\\[(.+?)]|(.+$)".toList ∧
@@ -577,7 +578,7 @@ def source_as_modelled : Prop :=
   pyNatSimplification = ["==hour:minute:second".toList, "==hour:minute".toList, "=0h".toList, "=hour:minute".toList,
                          "=hour".toList, "=12h".toList, "=hour".toList] ∧
   pyStatements =
-    ["dateS = interpret('-'.join((field for field in ['year', 'month', 'date', 'day'] if dOpts[field])))".toList,
+    ["dateS = interpret('-'.join((field for field in ('year', 'month', 'date', 'day') if dOpts[field])))".toList,
      "dateS = relativeDate[sign].replace('[x]', str(abs(diffDays)))".toList,
      "dateS = relativeDate[str(diffDays)].replace('[l]', dateRule['text']['weekday'][(dateObj.weekday() + 1) % 7])".toList,
      "diffDays = dateObj.toordinal() - dOpts['rtime'].toordinal()".toList,
@@ -585,7 +586,7 @@ def source_as_modelled : Prop :=
      "fmt = fmt[idx:]".toList,
      "fmt = fmts[fields]".toList,
      "fmts = dateRule['format']['natural' if dOpts['nat'] else 'non_natural']".toList,
-     "return ' '.join((s for s in [dateS, timeS] if len(s) > 0))".toList,
+     "return ' '.join((s for s in (dateS, timeS) if len(s) > 0))".toList,
      "return ''".toList,
      "return res".toList,
      "sign = '-' if diffDays < 0 else '+'".toList] ∧
